@@ -413,6 +413,10 @@ func (e *Env) typeFacts(s *State, v Value) string {
 			f = and(f, "(<= "+sliceBase(v.T)+" "+s.alloc+")")
 		}
 		return f
+	case *types.Interface:
+		if s != nil && s.alloc != "" {
+			return "(<= (valref " + v.T + ") " + s.alloc + ")"
+		}
 	case *types.Struct:
 		var fs []string
 		for i := 0; i < u.NumFields(); i++ {
